@@ -5329,9 +5329,8 @@ class DfaCompileCtx:
                     continue
 
             # Shortcircuit the transition
-            if to_replace.error_handling:
-                transition.handles_else()
-
+            # (it keeps its own kind: a match that leads into the dummy state remains a match, which an accepting
+            #  state takes, whatever the dummy's only transition was)
             transition.attach(*to_replace.actions)
             transition.to(to_replace.target)
 
